@@ -47,7 +47,7 @@ def rand_core_prog(r, nsteps):
             if ch == 'i':
                 args.append(r.below(2) if op in ('ADivF', 'AMulG', 'AAddG') else r.below(4))
             elif ch == 'f':
-                if op == 'ADivF': args.append(P.f(r.choice([1.0, 2.0, 3.0, 0.5, r.uniform(0.1, 50.0)])))
+                if op == 'ADivF': args.append(P.f(r.choice([1.0, 2.0, 3.0, 0.5, -1.0, -2.0, -0.25, -3.5, r.uniform(0.1, 50.0), -r.uniform(0.1, 50.0)])))
                 elif op in ('GNew', 'GNewBlade', 'ANew', 'ANewBlade') : args.append(dom_float(P, r))
                 else: args.append(dom_float(P, r))
             elif ch == 'u':
